@@ -102,7 +102,7 @@ func (g *c17gen) str(valid bool) string {
 	return b.String()
 }
 
-var c17bytesLens = []int{0, 1, 2, 3, 4, 47, 48, 49, 50, 64, 767, 768, 769, 1024, 1500}
+var c17bytesLens = []int{0, 1, 2, 3, 4, 47, 48, 49, 50, 56, 63, 64, 65, 66, 96, 767, 768, 769, 770, 1023, 1024, 1025, 1500}
 
 func (g *c17gen) bytesPayload() string {
 	n := g.r.Intn(8)
